@@ -85,6 +85,11 @@ class Sys(e1.TimedSys):
         c.abstract_incoming = True
         return canon.key_of((c.snapshot(self.roots()), self.key_extra()))
 
+    def key_extra(self):
+        # verdict-relevant bookkeeping that is pending while the loop is not idle
+        pend = tuple((src, tuple(sorted(pairs)), tuple(self.step_kinds[start:])) for src, pairs, start in self.step_reboots)
+        return super().key_extra() + (pend,)
+
     def actions(self):
         acts = []
         for src, name, ev, mc in self.menu:
